@@ -246,6 +246,36 @@ def install(E):
     L['ndarray.copy'] = nd_copy
     L['numpy.copy'] = nd_copy
 
+    def np_mean(E, x, axis=None, keepdims=False, **kw):
+        args = [x, axis, keepdims] + ([DictV(kw)] if kw else [])
+        r = E.app('numpy.mean', args, tag='ndarray')
+        sh = getattr(x, 'shape', None) if isinstance(x, SV) else None
+        if sh is not None and isinstance(axis, int):
+            ax = axis % len(sh)
+            r.shape = tuple(1 if k == ax else d for k, d in enumerate(sh)) if keepdims else \
+                tuple(d for k, d in enumerate(sh) if k != ax)
+        return r
+    L['numpy.mean'] = np_mean
+    L['ndarray.mean'] = np_mean
+
+    def nd_transpose(E, x, *axes):
+        if len(axes) == 1 and isinstance(axes[0], (tuple, SeqV)):
+            axes = tuple(axes[0]) if isinstance(axes[0], tuple) else tuple(axes[0].items)
+        r = E.app('ndarray.transpose', [x] + list(axes), tag='ndarray')
+        sh = getattr(x, 'shape', None) if isinstance(x, SV) else None
+        if sh is not None and axes and all(isinstance(a, int) for a in axes):
+            r.shape = tuple(sh[a] for a in axes)
+        return r
+    L['ndarray.transpose'] = nd_transpose
+
+    def nd_reshape2(E, x, *shape, **kw):
+        if len(shape) == 1 and isinstance(shape[0], tuple):
+            shape = shape[0]
+        r = E.app('ndarray.reshape', [x] + list(shape), tag='ndarray')
+        if all(isinstance(d, int) and d >= 0 or (isinstance(d, SV) and d.kind == 'int') for d in shape):
+            r.shape = tuple(d if isinstance(d, int) else d.z for d in shape)
+        return r
+
     def nd_reshape(E, x, *shape, **kw):
         if isinstance(x, ArrV):
             if len(shape) == 1 and isinstance(shape[0], tuple):
@@ -253,7 +283,7 @@ def install(E):
             r = E.app('ndarray.reshape', [x] + list(shape), tag='ndarray')
             return r
         return E.app('ndarray.reshape', [x] + list(shape), tag='ndarray')
-    L['ndarray.reshape'] = nd_reshape
+    L['ndarray.reshape'] = nd_reshape2
 
 
 def boxI_(i):
